@@ -94,7 +94,7 @@ def run(ctx):
     import blackbird
 
     g = common.grammar()
-    n = BUDGET[ctx.tier]
+    n = ctx.scaled(BUDGET[ctx.tier])
     digests = {}
     orders = {}
     root = os.path.realpath(tempfile.mkdtemp(prefix="bbv-c19-"))
